@@ -446,6 +446,55 @@ def second_opinion(ctx, tf, cases, workdir, limit):
                      f'{differ} differ (of {len(todo)} sampled cases)')
 
 
+def replay_one(ctx, tf, path, workdir):
+    """./check C17 --replay FILE: run the recorded input again."""
+    import json
+    import asyncssh
+    with open(path) as f:
+        doc = json.load(f)
+    rp, sig = doc['replay'], doc['signature']
+    kind = rp['kind']
+    if kind in ('kh', 'pat'):
+        q = rp.get('query') or [rp['host'], '', None]
+        got = tf.kh_run(rp['text'], tuple(q), rp.get('api', 'bytes'), workdir)
+        exp = rp.get('expected')
+        if kind == 'pat':
+            exp = [['k1'] if exp else [], [], []]
+        good = got[0] == 'ok' and (exp is None or [set(x) for x in got[1]] ==
+                                   [set(x) for x in exp]) and not got[2]
+        if exp is None:         # damage sweep file
+            good = got[0] == 'ok' and got[1] == (['k1'], [], ['k2'])
+    elif kind == 'tok':
+        got = tf.tok_run(rp['text'])
+        exp = rp['expected']
+        good = got[0] == exp[0] and (exp[0] != 'ok' or got[2] == exp[1])
+    elif kind == 'ak':
+        q = rp['query']
+        try:
+            ak = asyncssh.import_authorized_keys(rp['text'])
+            pr = q['principals']
+            r = ak.validate(tf.keys()[q['key']][0], q['host'], q['addr'],
+                            None if pr == 'none' else pr, q['ca'])
+            got = None if r is None else tf.ak_normal(r)
+        except Exception as exc:        # pylint: disable=broad-except
+            got = f'{type(exc).__name__}: {exc}'
+        good = got == rp['expected']
+    else:                       # ak_dmg
+        try:
+            ak = asyncssh.import_authorized_keys(rp['text'])
+            got = [ak.validate(tf.keys()[k][0], 'a', '10.0.0.4')
+                   for k in ('k1', 'k2')]
+            good = got == [{'command': 'x'}, {'no-pty': True}]
+        except Exception as exc:        # pylint: disable=broad-except
+            got, good = f'{type(exc).__name__}: {exc}', False
+    ctx.count(('replay', path))
+    ctx.traces_validated(1)
+    ctx.level = 'exploration'
+    print(f'replay {path}: observed {got}')
+    if not good:
+        ctx.violation(sig, doc['what'] + f' [replayed: {got}]', replay=rp)
+
+
 def main(ctx):
     from harness.drivers import trust_files as tf
     import asyncssh
@@ -453,7 +502,10 @@ def main(ctx):
     os.makedirs(tlc.WORK, exist_ok=True)
     workdir = tempfile.mkdtemp(prefix='c17_files_', dir=tlc.WORK)
     try:
-        _main(ctx, tf, workdir)
+        if getattr(ctx, 'replay_path', None):
+            replay_one(ctx, tf, ctx.replay_path, workdir)
+        else:
+            _main(ctx, tf, workdir)
     finally:
         shutil.rmtree(workdir, ignore_errors=True)
 
